@@ -52,15 +52,20 @@ Fixpoint tracked_loop (s : str) (m : mtch) (shift : Z) (segs : list seg)
   match segs with
   | [] => Some (start, delta, acc)
   | SGrp g :: segs' =>
+      (* matched text between the previous segment and the group is dropped
+         (or reused, for nested groups); the group is attributed to its own span *)
+      let '(start1, delta1) :=
+        if 0 <=? grp_start m g then (grp_start m g, delta + (grp_start m g - start))
+        else (start, delta) in
       let lit := grp_text s m g in
       let acc' := {| p_sub := p_sub acc ++ lit;
-                     p_smap := p_smap acc ++ copy_map (length lit) (shift + delta);
-                     p_emap := p_emap acc ++ copy_map (length lit) (shift + delta);
+                     p_smap := p_smap acc ++ copy_map (length lit) (shift + delta1);
+                     p_emap := p_emap acc ++ copy_map (length lit) (shift + delta1);
                      p_delta := 0 |} in
       let li := match m_last m with Some l => l | None => O end in   (* m.lastindex or 0 *)
       (* start of the next group in g+1..lastindex that participated, else m.end() *)
       let endp' := next_group_start m (S g) (li - g) in
-      tracked_loop s m shift segs' endp' endp' delta acc'
+      tracked_loop s m shift segs' (start1 + Z.of_nat (length lit)) endp' delta1 acc'
   | SLit lit :: segs' =>
       let width := endp - start in
       let n := length lit in
@@ -83,7 +88,7 @@ Definition seg_text (s : str) (m : mtch) (sg : seg) : str :=
   match sg with SLit l => l | SGrp g => grp_text s m g end.
 
 (* _process_match with an all-zero mask; None = exception *)
-Definition process_match (s : str) (m : mtch) (shift : Z) (tracked untracked : list seg)
+Definition process_match_raw (s : str) (m : mtch) (shift : Z) (tracked untracked : list seg)
   : option pm :=
   match tracked, untracked with
   | [], [] => Some {| p_sub := []; p_smap := []; p_emap := [];
@@ -108,6 +113,16 @@ Definition process_match (s : str) (m : mtch) (shift : Z) (tracked untracked : l
                       p_delta := delta + (width - Z.of_nat n) |}
           end
       end
+  end.
+
+(* _process_match with an all-zero mask; None = exception.  The net length
+   change reported for the match is its width minus the replacement length. *)
+Definition process_match (s : str) (m : mtch) (shift : Z) (tracked untracked : list seg)
+  : option pm :=
+  match process_match_raw s m shift tracked untracked with
+  | Some p => Some {| p_sub := p_sub p; p_smap := p_smap p; p_emap := p_emap p;
+                      p_delta := Z.of_nat (m_end m) - Z.of_nat (m_start m) - Z.of_nat (length (p_sub p)) |}
+  | None => None
   end.
 
 Record rres := { r_out : str; r_smap : list Z; r_emap : list Z }.
